@@ -191,6 +191,9 @@ def apply_rule_units(world):
                 cl.append(("result-replaces-the-window-by-the-value", ["C15"],
                            isinstance(p2, tuple) and len(p2) == len(want) and all(x is y for x, y in zip(p2, want))))
                 cl.append(("trace-extended-by-the-rule-name", ["C15"], r.attrs.get("rules") == (100, "ruleA", "ruleB")))
+                # termination measure of B.4/C01: a window of two or more items makes the production shorter
+                cl.append(("production-never-grows-and-shrinks-for-windows-of-two-or-more", ["C01", "C15"],
+                           isinstance(p2, tuple) and len(p2) == n - (b_ - a_) + 1))
                 cl.append(("applicable-rules-inherited", ["C15"], r.attrs.get("applicable_rules") is pp.attrs["applicable_rules"]))
                 cl.append(("covered-length-of-the-new-production", ["C15", "C09"],
                            r.attrs.get("max_covered_chars") == want[-1].attrs["mend"] - want[0].attrs["mstart"]))
@@ -310,6 +313,7 @@ class GapUnit:
             if not ok:
                 o.status, o.detail = "failed", detail
                 o.cex = {"args": {"kind": "gap"}}
+                o.shape_only = True
             obs.append(o)
         f = world.func("ctparse._regex_stack")
         m0 = Obj(world.classes["RegexMatch"], fresh=False, label="m0")
